@@ -24,7 +24,7 @@ def main():
     rec = dict(backend=backend, mode=mode)
     try:
         lab = labtech.Lab(storage=os.path.join(wd, 's'), runner_backend=backend, max_workers=2)
-        tasks = [rtasks.Sleeper(k=i, seconds=2.5) for i in range(4)]   # 2 run at once, 2 stay queued
+        tasks = [rtasks.Sleeper(k=i, seconds=2.5, block_sigterm=(mode == 'double_block')) for i in range(4)]   # 2 run at once, 2 stay queued
         pid = os.getpid()
 
         def ctrl_c():
@@ -49,7 +49,7 @@ def main():
             time.sleep(0.2)
             sig_times.append(time.time())
             ctrl_c()
-            if mode == 'double':
+            if mode in ('double', 'double_block'):
                 time.sleep(0.25)
                 sig_times.append(time.time())
                 ctrl_c()
